@@ -44,7 +44,8 @@ CORRUPTIONS = ["flip-quote", "flip-quote-report-data", "flip-quote-signature", "
                "wrong-root", "expired-link", "future-link", "custom-data-swapped-resigned-hash",
                "att-key-replaced", "truncate-quote-signature", "swap-att-and-quote-signatures",
                "quote-extended", "auth-data-extended", "attacker-branch-under-non-x509",
-               "root-of-other-kind", "quote-hash-at-offset", "att-hash-at-offset"]
+               "root-of-other-kind", "quote-hash-at-offset", "att-hash-at-offset",
+               "wrong-root-extra-targets", "flip-x509-extra-targets"]
 
 
 def shards(tier, seed):
@@ -172,6 +173,18 @@ def corrupt(rng, m, doc, kind):
     if kind == "wrong-root":
         k = g.new_key(rng)
         return d, g.make_cert("root", k.public_key(), "root", k), certs[0]["name"]
+    if kind in ("wrong-root-extra-targets", "flip-x509-extra-targets"):
+        # the quote's failing ancestor is met more than once (extra / repeated targets)
+        names = [e["name"] for e in d["elements"] if e["name"] != "quote"]
+        d["targets"] = rng.choice([[rng.choice(names), "quote"], ["quote", "quote"],
+                                   names + ["quote"], [certs[0]["name"], "quote"]])
+        if kind == "wrong-root-extra-targets":
+            k = g.new_key(rng)
+            return d, g.make_cert("root", k.public_key(), "root", k), certs[0]["name"]
+        # (a *valid* X.509 or attestation-key element listed as a target makes validation
+        # raise - known finding of C16 -, so only the quote is repeated here)
+        d["targets"] = ["quote", "quote"]
+        return corrupt(rng, m, d, "flip-x509")
     if kind in ("expired-link", "future-link"):
         depth = len(m.certs)
         i = rng.randrange(depth)
@@ -235,7 +248,30 @@ def run_code(doc, root_cert, tmpdir):
                                   "483ada7726a3c4655da4fbfc0e1108a8fd17b448a68554199c47d08ffb10d4b8")
     else:
         root = HSMCertificateV2ElementX509.from_pem(g.pem(root_cert), "sgx_root", "sgx_root")
-    return cert.validate_and_get_values(root)
+    first = cert.validate_and_get_values(root)
+    # the same certificate object validated again (same root, an unrelated root of trust,
+    # the first root once more): a verdict may not depend on what was validated before
+    del REVALIDATION[:]
+    try:
+        if verdicts(cert.validate_and_get_values(root)) != verdicts(first):
+            REVALIDATION.append("second-validation-differs")
+        k = g.new_key(random.Random(7))
+        other = HSMCertificateV2ElementX509.from_pem(
+            g.pem(g.make_cert("root", k.public_key(), "root", k)), "sgx_root", "sgx_root")
+        if any(v[0] for v in cert.validate_and_get_values(other).values()):
+            REVALIDATION.append("valid-under-an-unrelated-root-after-earlier-validation")
+        if verdicts(cert.validate_and_get_values(root)) != verdicts(first):
+            REVALIDATION.append("validation-after-other-root-differs")
+    except Exception as e:
+        REVALIDATION.append("revalidation-raised-%s" % type(e).__name__)
+    return first
+
+
+REVALIDATION = []
+
+
+def verdicts(res):
+    return {k: (v[0], v[1] if not v[0] else None) for k, v in res.items()}
 
 
 def compare(acc, doc, root_cert, tmpdir, label, case):
@@ -245,6 +281,9 @@ def compare(acc, doc, root_cert, tmpdir, label, case):
         acc.violation("validation-raised:%s" % type(e).__name__,
                       {"label": label, "exc": repr(e)[:300]}, case)
         return None
+    acc.count("revalidations_on_same_object")
+    for prob in REVALIDATION:
+        acc.violation("verdict-depends-on-earlier-validation:%s" % prob, {"label": label}, case)
     if root_cert == "v1root":
         # a root of trust that is not an X.509 certificate certifies nothing here
         top = [e["name"] for e in doc["elements"] if e["signed_by"] == "sgx_root"]
